@@ -225,7 +225,7 @@ class Scheduler:
         return tr.normalise_impl(self.im, [e for e in self.events[i]])
 
 
-def run_schedule(u, setup, calls, schedule=None, rng=None, mode="th", pids=None, fmts=None, max_steps=5000, env=None):
+def run_schedule(u, setup, calls, schedule=None, rng=None, mode="th", pids=None, fmts=None, max_steps=5000, env=None, sticky=0.0, on_step=None):
     """Drive [calls] concurrently after [setup].  schedule: list of thread indices (one per operation), or None for a
     random schedule drawn from rng.  -> dict(outcomes, state, locks, steps, ops per thread, schedule_used, status)"""
     import os
@@ -258,6 +258,8 @@ def run_schedule(u, setup, calls, schedule=None, rng=None, mode="th", pids=None,
                     for i in schedule:
                         sch.step(i)
                         used.append(i)
+                        if on_step is not None:
+                            on_step(im, sch, i)
                     if not sch.finished():
                         status = "schedule-exhausted:" + ",".join("%d=%s(%s)" % (j, sch.state[j], sch.info[j]) for j in range(sch.n))
                 else:
@@ -267,9 +269,16 @@ def run_schedule(u, setup, calls, schedule=None, rng=None, mode="th", pids=None,
                         if not en:
                             status = "deadlock:" + ",".join("%d=%s(%s)" % (j, sch.state[j], sch.info[j]) for j in range(sch.n))
                             break
-                        i = rng.choice(en) if rng is not None else en[0]
+                        if rng is None:
+                            i = en[0]
+                        elif sticky and used and used[-1] in en and rng.random() < sticky:
+                            i = used[-1]            # long runs of one thread: preemptions are few and land anywhere
+                        else:
+                            i = rng.choice(en)
                         sch.step(i)
                         used.append(i)
+                        if on_step is not None:
+                            on_step(im, sch, i)
                         k += 1
                         if k > max_steps:
                             status = "step-limit"
